@@ -22,7 +22,7 @@ ASSUMPTIONS = ["nvmon.ref exact reference model", "explored domain of DESIGN.md 
 FLOORS = {'quick': {'insert-accepted': 400, 'probe-lib': 4000, 'probe-defn': 4000, 'structure': 400, 'reject-intact': 100,
                     'hook:knot_insertion': 300},
           'thorough': {'insert-accepted': 5000, 'probe-lib': 50000}}
-MANDATORY_TAGS = ['helper-default:ulp-below', 'helper-default:exact', 'large', 'pdim1', 'pdim2', 'pdim3', 'twins', 'rational', 'on-knot', 'in-span', 'multi-dir', 'via:method', 'via:operations',
+MANDATORY_TAGS = ['single-precision-neighbour', 'helper-default:ulp-below', 'helper-default:exact', 'large', 'pdim1', 'pdim2', 'pdim3', 'twins', 'rational', 'on-knot', 'in-span', 'multi-dir', 'via:method', 'via:operations',
                   'r>=2', 'unnormalized', 'dir:u', 'dir:v', 'dir:w', 'same-value-again', 'unclamped', 'on-domain-end', 'short-knot-range']
 TECHNIQUE = ("runtime monitoring: shadow-model oracle (exact reference of the original definition) evaluated after every step of "
              "a seeded insertion history, plus an all-call post-condition hook on helpers.knot_insertion/_kv")
@@ -144,6 +144,8 @@ def gen(rng, tier, shard, nshards):
             yield {'kind': 'history', 'sd': sd2, 'seed': rng.randrange(1 << 30), 'steps': rng.randint(3, 7), 'reinsert': True}
         if i % 4 == 0:
             yield {'kind': 'twins', 'seed': rng.randrange(1 << 30), 'pdim': rng.choice([1, 1, 2])}
+        if i % 5 == 2:
+            yield {'kind': 'single-precision-neighbour', 'seed': rng.randrange(1 << 30)}
 
 
 def structure_ok(ctx, pre, post, d, u, r, step):
@@ -261,7 +263,60 @@ def check_helper_default(case, ctx):
               % (p, u, {'exact': 'an existing knot', 'mid': 'inside a span'}.get(how, 'one ulp beside the knot %r' % k), best), what='helper-default', kv=U)
 
 
+def check_f32_neighbour(case, ctx):
+    """(sixth hunt) somebody else in the process works in single precision (numpy.float32 knots and parameter, every value exactly
+    representable in both precisions): a later insertion into an UNRELATED curve of Python floats with equal knot values is an exact
+    insertion in double precision - whatever the first request left behind in a cache"""
+    from geomdl import BSpline, operations
+    try:
+        import numpy as np
+    except ImportError:
+        raise Reject()
+    rng = random.Random(case['seed'])
+    p = rng.randint(1, 3)
+    n = p + 1 + rng.randint(1, 3)
+    inner = sorted(rng.sample([k_ / 16.0 for k_ in range(1, 16)], n - p - 1))
+    U = [0.0] * (p + 1) + inner + [1.0] * (p + 1)
+    u = rng.choice([k_ / 32.0 for k_ in range(1, 32) if k_ / 32.0 not in inner])
+    P = [[round(rng.uniform(-4000, 4000), 3) for _ in range(2)] for _ in range(n)]
+    ctx.tag('single-precision-neighbour')
+    ctx.nontriv(True)
+
+    def make(kv):
+        c_ = BSpline.Curve(normalize_kv=False)
+        c_.degree = p
+        c_.ctrlpts = [list(q_) for q_ in P]
+        c_.knotvector = kv
+        return c_
+    try:
+        with so.quiet():
+            operations.insert_knot(make([np.float32(k_) for k_ in U]), [np.float32(u)], [1])
+    except Exception:
+        pass                     # (single precision input is not supported: whatever it does, it must not affect anybody else)
+    c = make(list(U))
+    S0 = G.defn_of(c)
+    try:
+        operations.insert_knot(c, [u], [1])
+    except Exception as e:
+        ctx.fail('history/single-precision-neighbour', 'insert_knot(%r) into a curve of Python floats raised %s after an unrelated insertion '
+                 'with numpy.float32 knots of equal value' % (u, type(e).__name__))
+        return
+    S1 = G.defn_of(c)
+    sc = so.scale_of_defn(S0)
+    bad = None
+    for q in so.probe_params(rng, S0, nrand=4, maxn=10):
+        x, y = S0.point(q), S1.point(q)
+        if any(abs(a_ - b_) > F(1e-12) * F(sc) for a_, b_ in zip(x, y)):
+            bad = (q, float(max(abs(a_ - b_) for a_, b_ in zip(x, y))))
+            break
+    ctx.check(bad is None, 'history/single-precision-neighbour', 'insert_knot(%r) into a curve of Python floats after an unrelated insertion with '
+              'numpy.float32 knots of equal value: the curve moved by %r at %r (single-precision coefficients served from a cache)'
+              % (u, bad and bad[1], bad and bad[0]), what='shape')
+
+
 def check(case, ctx):
+    if case.get('kind') == 'single-precision-neighbour':
+        return check_f32_neighbour(case, ctx)
     if case.get('kind') == 'twins':
         return check_twins(case, ctx)
     if case.get('kind') == 'helper-default':
